@@ -446,6 +446,12 @@ pub trait Instrumented: Problem<Objective = SingleObjective> + ObjectiveFunction
     fn pure(&self, solution: &Self::Encoding) -> f64;
     fn sol_hash(solution: &Self::Encoding) -> u64;
     fn sol_json(solution: &Self::Encoding) -> serde_json::Value;
+    /// Another instance of the same problem type and dimension on which the same configuration object can be
+    /// run as well, but which differs in what operators may cache from a problem (domain bounds); None if the
+    /// type has nothing of that kind.
+    fn sibling(&self) -> Option<Self> {
+        None
+    }
 }
 
 impl Instrumented for Real {
@@ -460,6 +466,10 @@ impl Instrumented for Real {
     }
     fn sol_json(s: &Vec<f64>) -> serde_json::Value {
         serde_json::json!(s.iter().map(|x| format!("{x:e}")).collect::<Vec<_>>())
+    }
+    fn sibling(&self) -> Option<Self> {
+        // same dimension, every domain moved and shrunk to a tenth: a repair against these bounds changes almost every coordinate
+        Some(Real::with_domains(self.domains.iter().map(|&(lo, hi)| (hi + 1.0, hi + 1.0 + (hi - lo) / 10.0)).collect(), self.f))
     }
 }
 impl Instrumented for Bits {
